@@ -75,6 +75,15 @@ def make_config(prop, rng, tier):
         })
     else:
         raise HarnessError("engine rewrite does not serve " + prop)
+    if tier == "thorough" and rng.random() < 0.3:
+        # deeper bounds in a share of the thorough runs
+        if prop == "C05":
+            cfg.update({"nboxes": rng.randint(8, 12), "maxw": rng.choice([6, 7, 8]), "max_steps": 100})
+        elif prop == "C06":
+            cfg.update({"nboxes": rng.choice([7, 8, 8]), "class_cap": rng.choice([3000, 6000]),
+                        "members_per_check": rng.choice([60, 100]), "max_steps": 50})
+        else:
+            cfg.update({"nsteps": rng.randint(9, 13), "maxw": rng.choice([6, 7]), "max_steps": 60})
     return cfg
 
 
@@ -175,6 +184,21 @@ class World(BaseWorld):
             real = B.build(op["spec"])
         except M.ModelError:
             return "skipped-illtyped-spec"
+        for step in op.get("recipe", []):
+            # inputs that come out of the library's own rigid constructions
+            try:
+                if step in ("transpose_l", "transpose_r"):
+                    real = real.transpose(left=(step == "transpose_l"))
+                elif step == "dagger":
+                    real = real[::-1]
+                elif step == "cup_close" and len(real.cod) and len(real.cod) <= 2:
+                    real = real @ type(real).id(real.cod.r) >> type(real).cups(real.cod, real.cod.r)
+                elif step == "cap_open" and len(real.dom) and len(real.dom) <= 2:
+                    real = type(real).caps(real.dom.r, real.dom) >> type(real).id(real.dom.r) @ real
+            except Exception as err:
+                self.note("recipe_step_raised_" + type(err).__name__)
+                return "skipped-recipe"
+            self.note("recipe_" + step)
         model = M.model_of(real)
         B.require_well_typed(real, "%s.ill-typed" % self.prop, "constructed diagram")
         self.store(op["slot"], real, model, op["slot"])
@@ -730,6 +754,13 @@ class Driver:
             self.started = True
             self.pending = [{"op": "new", "slot": self.fresh_slot(), "spec": self.spec()}
                             for _ in range(cfg.get("walkers", 1) if self.prop == "C05" else 1)]
+            if self.prop == "C07" and gen.random() < 0.35:
+                rng = self.s["gen"]
+                base = B.gen_monoidal(rng, rng.randint(1, 3), "rigid", ("a", "b")[:cfg["atoms"]], 2,
+                                      0.8, 0.2, 0.2)
+                recipe = [rng.choice(["transpose_l", "transpose_r", "transpose_l", "transpose_r", "dagger",
+                                      "cup_close", "cap_open"]) for _ in range(rng.randint(1, 3))]
+                self.pending[0] = {"op": "new", "slot": "v0", "spec": base, "recipe": recipe}
             if self.prop != "C05":
                 for _ in range(cfg.get("walkers", 1) - 1):
                     self.pending.append({"op": "fork", "src": "v0", "dst": self.fresh_slot()})
